@@ -436,6 +436,9 @@ func (p *parser) parseDotMember(left ast.Expression) ast.Expression {
 		return &ast.BadExpression{From: period, To: p.idx}
 	}
 
+	// The name may be a keyword, after which the scanner doesn't arm
+	// automatic semicolon insertion as it does after an identifier.
+	p.insertSemicolon = true
 	p.next()
 
 	return &ast.DotExpression{
